@@ -145,6 +145,10 @@ def build_u123(repo, canary=None):
     # R4: `#[cfg(test)] mod test` is simply never cut.
 
     u.emit_text("prelude")
+    # crate-level constants the cut code may mention (cut verbatim)
+    defs = Source(repo, "src/definitions.rs")
+    for m in re.finditer(r"^pub const \w+: usize = [^;]+;", defs.text, re.M):
+        u.emit_raw(m.group(0), {"kind": "repo", "file": defs.rel, "line": defs.text.count("\n", 0, m.start()) + 1})
 
     word_text, word_free = weave_block(u, impl_word, "impl usize", "NumberTracker",
                                        hoist=["get_previous", "get_next"], hoist_prefix="word", self_ty="usize")
